@@ -315,7 +315,9 @@ def c15_cases(tier, seed):
     out = []
     pool = _pool(tier, seed, ["deps", "alloc", "placeflat", "pairs", "conveyor", "abs"], 25, 300, dict(), 60, 600)
     for cfg in pool:
-        ks = range(0, 9 if tier == "quick" else 14)
+        # pause steps up to the model's own max_time (a pause beyond it would simulate more steps
+        # than the uninterrupted run is allowed to)
+        ks = range(0, min(9 if tier == "quick" else 14, cfg["opts"]["maxTime"] + 1))
         ops = [{"op": "simulate", "light": True}]
         for k in ks:
             ops += [{"op": "rebuild"}, {"op": "simulate", "opts": {"maxTime": k}, "light": True},
